@@ -92,6 +92,10 @@ func (sc *StateCache) commit(bc *BlockCache) {
 	sc.lock.Lock()
 	defer sc.lock.Unlock()
 
+	// the block's hash may still be set concurrently (SetBlockHash): read it under the block's lock
+	bc.mu.Lock()
+	defer bc.mu.Unlock()
+
 	verifYield("commit.linkcheck")
 	_, ok := sc.hashCache.Get(bc.blockHash)
 	if ok {
@@ -99,8 +103,6 @@ func (sc *StateCache) commit(bc *BlockCache) {
 		return
 	}
 
-	bc.mu.Lock()
-	defer bc.mu.Unlock()
 	ts := time.Now()
 	for key, v := range bc.cache {
 		verifYield("commit.cacheget")
